@@ -10,19 +10,25 @@ use std::sync::atomic::{AtomicBool, Ordering};
 use std::sync::Arc;
 use std::time::{Duration, Instant};
 
-fn node_doc(next: u32, limit: u32, with_invoke: bool) -> String {
-    let invoke_state = if with_invoke {
-        r##"<state id="inv">
-   <invoke autoforward="false"><content><scxml xmlns="http://www.w3.org/2005/07/scxml" version="1.0" datamodel="rfsm-expression" initial="c">
+const CHILD_DOC: &str = r##"<scxml xmlns="http://www.w3.org/2005/07/scxml" version="1.0" datamodel="rfsm-expression" initial="c">
       <state id="c"><onentry><send event="child.hello" target="#_parent"/><send event="child.tick" delay="1ms"/></onentry>
         <transition event="child.tick"><send event="child.msg" target="#_parent"/><send event="child.tick" delay="1ms"/></transition>
-      </state></scxml></content></invoke>
+      </state></scxml>"##;
+
+/// `invoke_src`: the child document is loaded from a file (through the executor's include path) instead of inline content
+fn node_doc(next: u32, limit: u32, with_invoke: bool, invoke_src: bool) -> String {
+    let invoke_state = if with_invoke {
+        format!(
+            r##"<state id="inv">
+   {inv}
    <transition event="toggle" target="run"/>
    <transition event="timer"><send event="timer" delay="1ms"/></transition>
    <transition event="ping"><send event="pong" targetexpr="_event.origin"/></transition>
-  </state>"##
+  </state>"##,
+            inv = if invoke_src { "<invoke autoforward=\"false\" type=\"scxml\" src=\"c17child.scxml\"/>".to_string() } else { format!("<invoke autoforward=\"false\"><content>{}</content></invoke>", CHILD_DOC) }
+        )
     } else {
-        ""
+        String::new()
     };
     format!(
         r##"<scxml xmlns="http://www.w3.org/2005/07/scxml" version="1.0" datamodel="rfsm-expression" initial="idle">
@@ -98,10 +104,25 @@ fn wait_with_progress(mut done: impl FnMut() -> bool, idle: Duration, cap: Durat
 
 /// one stress scenario; `topology`: number of ring nodes; returns when done or when a deadlock was seen
 pub fn stress(nodes: usize, limit: u32, with_invoke: bool, host_starters: usize, jitter: u64, do_shutdown: bool) -> StressResult {
+    stress_ext(nodes, limit, with_invoke, host_starters, jitter, do_shutdown, None, None)
+}
+
+/// `src_dir`: children are invoked by `src` from a file in that directory; `pause`: (held class, requested class) -
+/// a thread that holds a lock of the first class and asks for one of the second is held back for a moment, which
+/// steers the execution into a predicted lock-order inversion if it is feasible (a sleep only delays: a wait-for
+/// cycle observed afterwards is a deadlock of the real code)
+#[allow(clippy::too_many_arguments)]
+pub fn stress_ext(nodes: usize, limit: u32, with_invoke: bool, host_starters: usize, jitter: u64, do_shutdown: bool, src_dir: Option<&std::path::Path>, pause: Option<(&str, &str)>) -> StressResult {
     lockmon::reset();
     lockmon::set_level(2);
     lockmon::set_jitter(jitter);
+    lockmon::set_pause_plan(pause.map(|(a, b)| (a.to_string(), b.to_string())));
     let mut case = Case::new();
+    if let Some(d) = src_dir {
+        let _ = std::fs::create_dir_all(d);
+        let _ = std::fs::write(d.join("c17child.scxml"), CHILD_DOC);
+        case.executor.set_include_paths(&vec![d.to_path_buf()]);
+    }
     // learn the next session id
     let probe = match parse_xml(SHORT_DOC) {
         Ok(f) => case.start(f),
@@ -111,7 +132,7 @@ pub fn stress(nodes: usize, limit: u32, with_invoke: bool, host_starters: usize,
     let mut running: Vec<Running> = vec![probe];
     for i in 0..nodes {
         let next = base + ((i + 1) % nodes) as u32;
-        let xml = node_doc(next, limit, with_invoke && i % 2 == 0);
+        let xml = node_doc(next, limit, with_invoke && i % 2 == 0, src_dir.is_some());
         match parse_xml(&xml) {
             Ok(f) => {
                 let r = case.start(f);
@@ -215,12 +236,15 @@ pub fn stress(nodes: usize, limit: u32, with_invoke: bool, host_starters: usize,
     }
     let sessions = running.len();
     lockmon::set_jitter(0);
+    lockmon::set_pause_plan(None);
     StressResult { deadlock, stuck, sessions, note: None }
 }
 
 pub fn run(args: &Args, rep: &mut Report) {
     let mut rng = args.rng(17);
     let runs = args.scale(4, 40);
+    // class pairs of predicted instance-level inversions (both directions): phase 2 tries to steer into them
+    let mut predicted: std::collections::BTreeSet<(String, String)> = std::collections::BTreeSet::new();
     for r in 0..runs {
         let mut nodes = *rng.pick(&[2usize, 3, 5, 8]);
         let mut with_invoke = r % 2 == 0;
@@ -235,7 +259,12 @@ pub fn run(args: &Args, rep: &mut Report) {
         }
         let jitter = if r % 2 == 1 { rng.next() | 1 } else { 0 };
         let shutdown = r % 4 == 3;
-        let res = stress(nodes, limit, with_invoke, hosts, jitter, shutdown);
+        let src_dir = args.out.join(format!("c17-src-{}", args.shard));
+        let by_src = with_invoke && (r / 2) % 2 == 1;
+        let res = stress_ext(nodes, limit, with_invoke, hosts, jitter, shutdown, if by_src { Some(src_dir.as_path()) } else { None }, None);
+        if by_src {
+            rep.count("stress_runs_invoking_by_src_file", 1);
+        }
         rep.evaluations += 1;
         if let Some(n) = &res.note {
             rep.inconclusive(n);
@@ -250,7 +279,12 @@ pub fn run(args: &Args, rep: &mut Report) {
         for (a, b, t) in lockmon::class_level_inversions(&snap) {
             rep.set_add("class_level_order_inversions_seen", &format!("{}<->{} by {:?}", a, b, t));
         }
-        rep.count("instance_level_inversions_predicted", lockmon::instance_level_inversions(&snap).len() as u64);
+        let inv = lockmon::instance_level_inversions(&snap);
+        rep.count("instance_level_inversions_predicted", inv.len() as u64);
+        for (e1, _) in &inv {
+            predicted.insert((short_class(e1.from_class).to_string(), short_class(e1.to_class).to_string()));
+            predicted.insert((short_class(e1.to_class).to_string(), short_class(e1.from_class).to_string()));
+        }
         rep.count("stress_sessions", res.sessions as u64);
         if let Some(d) = &res.deadlock {
             let key = deadlock_key(d);
@@ -275,6 +309,58 @@ pub fn run(args: &Args, rep: &mut Report) {
         if rep.samples.len() < rep.max_samples {
             rep.sample(json!({"scenario": {"ring_nodes": nodes, "with_invoke": with_invoke, "host_threads": hosts, "jitter": jitter != 0, "shutdown": shutdown},
                               "lock_order_edges": snap.class_pair_counts}));
+        }
+    }
+    // Phase 2 - confirmation: for every predicted inversion the stress scenario is repeated while threads that hold
+    // a lock of the first class and request one of the second are held back for 30 ms (seeded by the shard: one
+    // direction per run).  Only an observed wait-for cycle counts; predictions that do not confirm are listed.
+    if !crate::report::should_stop() && !args.miri() {
+        let mut pairs: Vec<(String, String)> = predicted.iter().cloned().collect();
+        if pairs.is_empty() {
+            pairs.push(("G".into(), "P".into()));
+        }
+        let reps = args.scale(1, 3);
+        let mut k = 0usize;
+        for (a, b) in &pairs {
+            for rep_i in 0..reps {
+                k += 1;
+                if k % 2 != args.shard % 2 && pairs.len() > 1 {
+                    continue;
+                }
+                let src_dir = args.out.join(format!("c17-src-{}", args.shard));
+                let by_src = (rep_i + args.shard / 2) % 2 == 0;
+                let res = stress_ext(2 + (args.shard % 3), if args.thorough() { 200 } else { 80 }, true, 1, 0, false, if by_src { Some(src_dir.as_path()) } else { None }, Some((a.as_str(), b.as_str())));
+                rep.evaluations += 1;
+                rep.count("confirmation_runs", 1);
+                let snap = lockmon::snapshot();
+                rep.count("confirmation_pauses", snap.pauses_done);
+                rep.set_add("confirmation_pairs_tried", &format!("hold {} request {}{}", a, b, if by_src { " (invoke by src)" } else { "" }));
+                if let Some(n) = &res.note {
+                    rep.inconclusive(n);
+                    continue;
+                }
+                if let Some(d) = &res.deadlock {
+                    let key = deadlock_key(d);
+                    let desc: Vec<String> = d
+                        .cycle
+                        .iter()
+                        .map(|(t, name, m, class, owner)| format!("thread t{} ({}) waits for {} #{} held by t{}", t, name, short_class(class), m, owner))
+                        .collect();
+                    rep.violation(
+                        &key,
+                        &format!("wait-for cycle observed (predicted lock-order inversion {}<->{} confirmed by holding back the {}->{} order): {}", a, b, a, b, desc.join("; ")),
+                        json!({"scenario": {"phase": "confirmation", "hold": a, "request": b, "invoke_by_src": by_src}, "cycle": desc, "lock_order_edges": snap.class_pair_counts}),
+                    );
+                    crate::report::request_stop();
+                    lockmon::set_level(0);
+                    return;
+                } else {
+                    rep.set_add("predicted_inversions_not_confirmed", &format!("{}<->{}", a.min(b), a.max(b)));
+                    if res.stuck {
+                        rep.inconclusive("confirmation run: a thread did not finish although no wait-for cycle was seen");
+                    }
+                }
+            }
         }
     }
     lockmon::set_level(0);
